@@ -13,8 +13,13 @@ Tie: (1) `io_facts_as_modelled` — the bodies of `ioCore.Write`, `lockedWriteSy
 `BufferedWriteSyncer.Write/Sync/flushLoop`, `multiCore.Write`, `CheckedEntry.Write`, `multiWriteSyncer.Write`,
 `CombineWriteSyncers`, `Open`, `jsonEncoder.clone`, `buffer.Pool.Get`, `Buffer.Free` are re-read from the source on
 every run and must be the ones the step function mirrors; (2) histories of the real loggers under `-race`: the
-recorded sink streams and the independently computed per-goroutine lines are judged by `validMerge` / `validCalls`
+recorded sink streams and the independently computed per-goroutine lines are judged by `validMerge` / `validCalls` / `validLines`
 (the compiled Lean functions, `Drv/C04.lean`) and by an independent Go oracle, and the verdicts are compared.
+
+Not in the machine: several sinks combined under ONE lock (`CombineWriteSyncers(a, b)`, `Open(p, q)`): the Gen fact
+`multiWsWrite` says every member receives the same slice inside the same critical section, so each member sees the call
+sequence `calls b` of that branch (C13 proves the multi-syncer rules); the harness compares the members call by call.
+Sink errors / short writes are C10, C12, C13.
 
 Trusted (DESIGN §3): Go's `sync.Mutex` is a mutex and `sync.Pool` never hands out an object that was not Put
 (`step`'s guards `lock = none`, `owner = none`); encoding touches per-call state only (C08/C09); the schedules of the
@@ -210,6 +215,25 @@ theorem bws_final_validCalls (kind : Nat → Kind) (jobs : Nat → List Act) (sc
     have hgp : ∀ l ∈ g, Proper l := fun l hl =>
       hprop l (by rw [← h4]; exact List.mem_append_left _ (List.mem_flatten.mpr ⟨g, hg, hl⟩))
     simp [cut_flatten g hgp]
+
+/-! ## the protocol cannot block itself -/
+
+/-- In every reachable state a goroutine that cannot take a step (with pooled buffer c on offer) has finished, or is at
+    `Get` and the pool does not offer c, or waits for a mutex whose holder can always step: critical sections contain
+    no acquisition and no wait, so the protocol has no state in which unfinished goroutines block each other.
+    `_partial`: termination of every fair schedule (hence reachability of `Finished` for every program) is not stated
+    here; the `example`s below exhibit finished runs, deadlock freedom of the real code is C09's subject. -/
+theorem no_self_block_partial (kind : Nat → Kind) (jobs : Nat → List Act) (sched : List (Nat × Nat)) (t c : Nat)
+    (hs : step kind false (reach kind jobs sched) t c = none) :
+    let s := reach kind jobs sched
+    ((s.thr t).todo = [] ∧ (s.thr t).ph = .idle) ∨
+    (∃ b u, wants (s.thr t) = some b ∧ s.lock b = some u ∧ ∀ c', (step kind false s u c').isSome = true) ∨
+    ((s.thr t).ph = .idle ∧ (∃ br line rest, (s.thr t).todo = .write br line :: rest) ∧ (s.pool c).owner ≠ none) := by
+  intro s
+  rcases blocked_cases hs with h1 | ⟨b, u, hw, hl⟩ | h3
+  · exact .inl h1
+  · exact .inr (.inl ⟨b, u, hw, hl, fun c' => holder_can_step (reach_inv kind jobs sched) hl c'⟩)
+  · exact .inr (.inr h3)
 
 /-! ## the theorems use the lock and the free-after-write discipline -/
 
